@@ -1,9 +1,29 @@
-"""C30 native replay: gradients through PCHIP1D must be finite (flat segments are the hard case)."""
-import os, random, sys
-import torch
+"""C30 native replay -- run with /venv/bin/python (real torch).
+
+usage: c30.py <replay.json> <repo_root>          replay of one failed obligation
+       c30.py --batch <batch.json> <repo_root>   replay of many bounded-symbolic cases in one process
+                                                 (results are written to <batch.json>.out)
+
+* PCHIP obligations (Engine A, kind != bounded-symbolic): gradients through PCHIP1D must be finite (flat
+  segments are the hard case).
+* bounded-symbolic obligations (Engine B, /verif/symtorch/harness/symharness/c30.py): the counter-model names
+  one case (number of atoms, site, which phases are the literal 0.0, batch size) and a numeric assignment
+  `env` of every symbol at which the real operator and the differentiated dense Hamiltonian differ as
+  polynomials.  The same case is rebuilt with real torch tensors, the real DHD*Sparse /
+  EvolveStateVector.backward from <repo_root> is run and compared (1e-9 relative) with the same
+  specification evaluated at `env`.
+Prints REPRODUCED and exits 1 when the real code disagrees with the specification (or raises);
+NOT-REPRODUCED / exit 0 otherwise.
+"""
+import importlib
+import json
+import os
+import random
+import sys
 
 
-def main():
+def pchip():
+    import torch
     from emu_base.math.pchip_torch import PCHIP1D
     rnd = random.Random(int(os.environ.get("VERIF_SEED", "0")))
     cases = [[0., 1., 1., 1., 2., 3.], [0., 0., 1., 3.], [2., 2., 2.], [1., -1., 1., -1.]]
@@ -21,6 +41,105 @@ def main():
             return 1
     print(f"NOT-REPRODUCED: gradients finite on {len(cases)} sample vectors (incl. flat segments)")
     return 0
+
+
+def _harness(repo_root):
+    sys.path.insert(0, repo_root)
+    sys.path.insert(0, "/verif/symtorch/harness")
+    from symharness.core import NumBackend, execute
+    mod = importlib.import_module("symharness.c30")
+    for p in mod.PACKAGES:
+        m = importlib.import_module(p)
+        f = os.path.realpath(m.__file__)
+        if not f.startswith(repo_root + os.sep):
+            raise RuntimeError(f"replay error: {p} imported from {f}, not from {repo_root}")
+    return mod, NumBackend, execute
+
+
+def _generic_backend(NumBackend, seed):
+    """numeric backend that draws a generic value for every symbol on first use (cross-run of cases that
+    matched symbolically: the real code must agree with the specification there too)"""
+    rng = random.Random(seed)
+
+    class Generic(NumBackend):
+        def real(self, name, nonzero=False):
+            if name not in self.env:
+                self.env[name] = rng.choice([-1, 1]) * rng.uniform(0.25, 2.0)
+            return super().real(name, nonzero)
+
+        def angle(self, name):
+            if name not in self.env:
+                self.env[name] = rng.choice([-1, 1]) * rng.uniform(0.2, 3.0)
+            return super().angle(name)
+    return Generic({})
+
+
+def _one(mod, NumBackend, execute, case, env, seed=0):
+    """-> (exit code, text, the numeric assignment used)"""
+    B = NumBackend(env) if env else _generic_backend(NumBackend, seed)
+    r = execute(B, dict(case), mod.KINDS[case["kind"]])
+    lines = [f"case: {json.dumps(case)}", f"native status: {r['status']}"]
+    if not env:
+        lines.append(f"generic assignment: {json.dumps(B.env)[:1500]}")
+    if r["status"] == "mismatch":
+        for m in r["mismatches"][:3]:
+            lines.append(f"  {m.get('check')} index {m.get('index')}: real code {m.get('got')}  specification {m.get('want')}")
+        lines.append("REPRODUCED")
+        return 1, "\n".join(lines), dict(B.env)
+    if r["status"] == "raised":
+        lines.append(f"  real code raised {r['exception']['type']}: {r['exception']['message']}")
+        lines.append(r["exception"]["traceback"][-1200:])
+        lines.append("REPRODUCED")
+        return 1, "\n".join(lines), dict(B.env)
+    if r["status"] == "crash":
+        lines.append(r.get("traceback", ""))
+        return 3, "\n".join(lines), dict(B.env)
+    lines.append("NOT-REPRODUCED")
+    return 0, "\n".join(lines), dict(B.env)
+
+
+def bounded(rec, repo_root):
+    model = rec.get("counter_model")
+    if not isinstance(model, dict) or "case" not in model or not model.get("env"):
+        print("NOT-REPRODUCED: the obligation is undecided under the shim and carries no numeric assignment "
+              "(the bounded native panel search was already run by the check)")
+        return 0
+    mod, NumBackend, execute = _harness(repo_root)
+    print(f"obligation: {rec.get('obligation')}")
+    print(f"symbolic verdict: {model.get('status')}")
+    rc, text, _ = _one(mod, NumBackend, execute, model["case"], model["env"])
+    print(text)
+    return rc
+
+
+def batch(path, repo_root):
+    with open(path) as f:
+        jobs = json.load(f)
+    mod, NumBackend, execute = _harness(repo_root)
+    out = {}
+    for n, j in enumerate(jobs):
+        rc, text, env = _one(mod, NumBackend, execute, j["case"], j.get("env"), seed=1000 * int(j.get("seed", 0)) + n)
+        out[j["name"]] = dict(exit=rc, stdout=text[-3000:], reproduced=(rc == 1))
+        if rc == 1 and not j.get("env"):
+            out[j["name"]]["env"] = env
+    with open(path + ".out", "w") as f:
+        json.dump(out, f)
+    return 0
+
+
+def main():
+    if len(sys.argv) >= 4 and sys.argv[1] == "--batch":
+        return batch(sys.argv[2], os.path.realpath(sys.argv[3]))
+    rec = None
+    if len(sys.argv) >= 3:
+        try:
+            with open(sys.argv[1]) as f:
+                rec = json.load(f)
+        except Exception:               # noqa: BLE001
+            rec = None
+    if isinstance(rec, dict) and rec.get("kind") == "bounded-symbolic":
+        return bounded(rec, os.path.realpath(sys.argv[2]))
+    return pchip()
 
 
 if __name__ == "__main__":
